@@ -198,6 +198,22 @@ class Checker:
                 self.obs.append(lob)
             self.assumed |= set(getattr(specs, 'ASSUME', []))
 
+    # -- baseline: which obligations were proved on which function text (committed under /verif/baseline) ----------------------
+    def baseline(self):
+        if not hasattr(self, '_baseline'):
+            try:
+                self._baseline = json.load(open(os.path.join(VERIF, 'baseline', '%s.json' % self.prop)))
+            except Exception:
+                self._baseline = {'functions': {}, 'proved': []}
+            self._baseline['proved'] = set(self._baseline.get('proved', []))
+        return self._baseline
+
+    def function_changed(self, func):
+        """True when the text of the function differs from the text the committed baseline proof was made on"""
+        base = self.baseline()['functions'].get(func)
+        cur = [f.get('sha256') for f in self.functions if f.get('function') == func]
+        return base is not None and bool(cur) and cur[0] != base
+
     def discharge(self):
         if not self.obs:
             return
@@ -217,9 +233,13 @@ class Checker:
             for name, res in ex.map(solve.work, items, chunksize=1):
                 self.results[name] = res
         # solver noise must never become a verdict: anything undecided is retried with a 4x budget on few workers
-        retry = [(i, smt, cov, timeout * 4) for (i, smt, cov, _) in items if self.results[i]['status'] in ('unknown', 'error')]
+        # (solver noise can only be suspected where the function text is the one the baseline proof was made on)
+        retry = [(i, smt, cov, timeout * 4) for (i, smt, cov, _) in items if self.results[i]['status'] in ('unknown', 'error')
+                 and not self.function_changed(self.obs[i].func)]
         # (only a handful of undecided obligations is solver noise; dozens mean the tree or a contract is broken: report, do not grind)
-        if retry and len(retry) <= 6 and not getattr(self, 'no_retry', False):
+        # (and when some obligation definitely failed, the run reports a violation whatever the undecided ones turn out to be)
+        definite = any(r.get('status') == 'failed' for r in self.results.values())
+        if retry and len(retry) <= 6 and not definite and not getattr(self, 'no_retry', False):
             with ProcessPoolExecutor(max_workers=min(4, len(retry))) as ex:
                 for name, res in ex.map(solve.work, retry, chunksize=1):
                     res['retried'] = True
@@ -352,8 +372,10 @@ class Checker:
             obs = groups[name]
             sts = [self.results[o.uid]['status'] for o in obs]
             if all(s in ('proved', 'unknown') for s in sts):
-                self.undecided.append(name)
-                continue
+                if not (name in self.baseline()['proved'] and self.function_changed(obs[0].func)):
+                    self.undecided.append(name)
+                    continue
+                # proved on the baseline text of this function, not provable on its current (changed) text: reported as it stands
             if new_viol:
                 # an input violating the property on the real code was already found by this run; attach
                 continue
@@ -361,7 +383,9 @@ class Checker:
             path = os.path.join('out', 'replay', '%s-%d.json' % (prop, n))
             json.dump({'property': prop, 'kind': 'obligation', 'obligation': name, 'function': obs[0].func,
                        'solver_output': [self.results[o.uid] for o in obs if self.results[o.uid]['status'] != 'proved'][:3],
-                       'note': 'obligation not discharged; no failing input found by model replay or by the bounded search', 'repo': front.REPO},
+                       'note': 'obligation not discharged; no failing input found by model replay or by the bounded search',
+                       'baseline': 'proved on the committed baseline text of this function; the function text has changed' if self.function_changed(obs[0].func) else None,
+                       'repo': front.REPO},
                       open(os.path.join(VERIF, path), 'w'), indent=1, default=str)
             self.violations.append({'replay': path, 'clause': name, 'with_input': False})
 
@@ -472,6 +496,13 @@ def check(prop, tier, seed):
         except Exception:
             ck.problems.append('verifier self-test crashed: ' + traceback.format_exc()[-800:])
     ev = ck.write_evidence(bounded, level, meta.get('assumptions', []))
+    if os.environ.get('PYVC_WRITE_BASELINE') and not (ck.violations or ck.problems or ck.undecided or ck.fallbacks):
+        os.makedirs(os.path.join(VERIF, 'baseline'), exist_ok=True)
+        groups = getattr(ck, 'groups', {})
+        proved = sorted(n for n, o in groups.items() if o[0].kind != 'cover' and all(ck.results[x.uid]['status'] == 'proved' for x in o))
+        json.dump({'repo_head': subprocess.run(['git', '-C', front.REPO, 'rev-parse', '--short', 'HEAD'], capture_output=True, text=True).stdout.strip(),
+                   'functions': {f['function']: f.get('sha256') for f in ck.functions if f.get('sha256')}, 'proved': proved},
+                  open(os.path.join(VERIF, 'baseline', '%s.json' % prop), 'w'), indent=0, sort_keys=True)
     for l in ck.known_lines:
         print(l)
     cov = ev['coverage']
